@@ -100,6 +100,55 @@ def feasible(assertions, timeout=800):
     return r != z3.unsat
 
 
+def _free_consts(exprs):
+    seen, out, work = set(), {}, list(exprs)
+    while work:
+        x = work.pop()
+        i = x.get_id()
+        if i in seen:
+            continue
+        seen.add(i)
+        try:
+            if z3.is_quantifier(x):
+                work.append(x.body())
+            elif z3.is_var(x):
+                continue
+            elif z3.is_app(x):
+                if x.num_args() == 0 and x.decl().kind() == z3.Z3_OP_UNINTERPRETED:
+                    out[x.decl().name()] = x
+                else:
+                    work.extend(x.children())
+        except z3.Z3Exception:
+            continue
+    return out
+
+
+def small_shapes(exprs):
+    """constraint sets that make the containers of the pre-state empty / one-element"""
+    consts = _free_consts(exprs)
+    empty, single = [], []
+    for name, c in consts.items():
+        srt = c.sort()
+        if not (name.startswith('H0:') or name.startswith('Hl:') or name.startswith('H:') or name.startswith('hv_')):
+            continue
+        def is_arr(x):
+            return x.kind() == z3.Z3_ARRAY_SORT
+        if is_arr(srt) and srt.domain() == z3.IntSort() and is_arr(srt.range()) and srt.range().range() == z3.BoolSort():
+            ks = srt.range().domain()
+            empty.append(c == z3.K(z3.IntSort(), z3.K(ks, False)))
+            k0 = z3.Const('small_k!' + name, ks)
+            single.append(c == z3.K(z3.IntSort(), z3.Store(z3.K(ks, False), k0, True)))
+        elif is_arr(srt) and srt.range() == z3.BoolSort() and name.startswith('hv_'):
+            empty.append(c == z3.K(srt.domain(), False))
+            single.append(c == z3.K(srt.domain(), False))
+        elif name.endswith(':ll') or ':ll!' in name:
+            empty.append(c == z3.K(z3.IntSort(), z3.IntVal(0)))
+            single.append(c == z3.K(z3.IntSort(), z3.IntVal(1)))
+    if not empty:
+        return []
+    return [empty, single]
+
+
 def _kind(c):
     n = c.decl().name()
     return n.split('!')[0]
@@ -168,6 +217,14 @@ def _prove1(assumptions, goal, timeout):
     if r == z3.sat:
         return 'refuted', backend, s.model()
     reason = s.reason_unknown()
+    # counterexample search over small pre-states: the quantified invariants of the entry state become trivial when
+    # the dictionaries / lists of the pre-state are empty or singletons.  A model found here satisfies the complete
+    # (exact) formula, so it is a genuine refutation.
+    full = assumptions + light + [d[1] for d in all_defs] + [neg]
+    for shape in small_shapes(full):
+        s2, r2 = _solve(full + shape, min(timeout, 4000))
+        if r2 == z3.sat:
+            return 'refuted', backend + '+small-prestate', s2.model()
     smt2 = None
     try:
         smt2 = s.to_smt2()
